@@ -126,7 +126,7 @@ func (s Results) DecodeResult(r *Reader, version int, b Block) error {
 		gotType := ColumnType(columnType)
 		if infer, ok := t.Data.(Inferable); ok {
 			if err := infer.Infer(gotType); err != nil {
-				return errors.Wrap(err, "infer")
+				return errors.Wrapf(err, "[%d]: %s: infer %q", i, columnName, gotType)
 			}
 		}
 		hasType := t.Data.Type()
